@@ -331,6 +331,30 @@ fn gen_oracle(c: &GenCase) -> Verdict {
     Verdict::Pass(Info::new(c.bits.len() >= 2).label(format!("logN={}", c.logn)))
 }
 
+/// The primality flag of `Modulus` decides since 7a0fca8 whether NTT tables (hence a context level, hence batching) exist for a
+/// value: it is compared with the deterministic Miller-Rabin of refmath on the values a probabilistic test gets wrong when it
+/// is mis-coded — Carmichael numbers without small factors (Chernick triples (6k+1)(12k+1)(18k+1)), strong pseudoprimes to
+/// base 2, squares and near-squares of primes — next to primes and plain composites.
+#[derive(Clone, Debug, Serialize, Deserialize)]
+pub struct PrimeCase { pub v: u64 }
+fn prime_cases(tier: Tier) -> Vec<PrimeCase> {
+    let mut out: Vec<u64> = vec![];
+    let kmax = tier.pick(30_000u64, 300_000u64);
+    for k in 1..kmax { let (a, b, c) = (6 * k + 1, 12 * k + 1, 18 * k + 1); if rm::is_prime(a) && rm::is_prime(b) && rm::is_prime(c) { if let Some(n) = a.checked_mul(b).and_then(|x| x.checked_mul(c)) { if n >> 61 == 0 { out.push(n); } } } }
+    out.extend_from_slice(&[561, 1105, 1729, 2465, 2821, 6601, 8911, 41041, 62745, 63973, 75361, 101101, 126217, 162401, 172081, 188461, 252601, 278545, 294409, 314821, 334153, 340561, 399001, 410041, 449065, 488881, 512461]);
+    out.extend_from_slice(&[2047, 3277, 4033, 4681, 8321, 15841, 29341, 42799, 49141, 52633, 65281, 74665, 80581, 85489, 88357, 90751, 1373653, 25326001, 3215031751, 2152302898747, 3474749660383, 341550071728321]);
+    for b in [8u32, 16, 24, 30, 31] { let p = crate::gen::ntt_prime(1, b, 0); let q = crate::gen::ntt_prime(1, b, 1); out.push(p * p); out.push(p * q); out.push(p); out.push(q); }
+    for b in [40u32, 50, 60, 61] { for s in [0u8, 1, 0x45, 0x7f, 0x80] { let p = crate::gen::ntt_prime(3, b, s); out.push(p); out.push(p - 2); out.push(p + 2); } }
+    out.sort(); out.dedup();
+    out.into_iter().filter(|v| *v >= 2 && *v >> 61 == 0).map(|v| PrimeCase { v }).collect()
+}
+fn prime_oracle(c: &PrimeCase) -> Verdict {
+    let want = rm::is_prime(c.v);
+    let got = match catch(|| Modulus::new(c.v).is_prime()) { Ok(g) => g, Err(p) => return fail(format!("Modulus::new({}) panicked: {p}", c.v)) };
+    if got != want { return fail_key("C13/primality-flag", format!("Modulus::new({}).is_prime() = {got}, but the value is {}", c.v, if want { "prime" } else { "composite" })); }
+    Verdict::Pass(Info::new(!want).label(if want { "prime" } else { "composite" }))
+}
+
 /// regression for the repaired composite-modulus defect: contexts built repeatedly from one parameter object must agree
 /// (before the fix the randomized root search accepted or rejected a composite modulus = 1 mod 2N from run to run)
 fn probe_oracle(c: &ParmCase) -> Verdict {
@@ -359,7 +383,7 @@ pub fn def() -> PropertyDef {
             Sub::prop("random_parameter_objects", 120_000, 1_000_000, 0.3, parm_case, oracle).fuzzable(parm_decode, oracle), Sub::corpus("fuzz_corpus_params", "c13_params", parm_decode, oracle),
             Sub::enumerate("small_universe_exhaustive", universe, oracle),
             Sub::prop("generated_moduli", 1_500, 30_000, 0.3, |_| gen_case(), gen_oracle),
-            Sub::enumerate("composite_modulus_probe", probe_cases, probe_oracle),
+            Sub::enumerate("composite_modulus_probe", probe_cases, probe_oracle), Sub::enumerate("primality_flag", prime_cases, prime_oracle),
         ],
     }
 }
